@@ -362,6 +362,10 @@ func runTreeLiteral(c *core.Ctx, l string) {
 			"pair.tw":            "{{ a = " + quoted + " }}{{ c = \"<c>\" }}@component(\"~pair\", {a: \"first\", b: a, c: a})",
 			// the inserts stand above the @use, and between two of them
 			"before.tw": "@insert(\"arg\", " + quoted + ")@insert(\"block\"){{ " + quoted + " }}@end@use(\"~main\")@insert(\"argraw\", " + quoted + ".raw())",
+			// stored in a variable inside one insert block, printed by the blocks of the reserves that follow it in the layout
+			"across.tw": "@use(\"~main\")@insert(\"argraw\"){{ w.raw() }}@end@insert(\"arg\"){{ w = " + quoted + " }}{{ w }}@end@insert(\"block\"){{ w }}@end",
+			// a second use of a slotted component, after a use with other slot bodies and under the other spelling of its name
+			"twice.tw": "@component(\"~card\", {title: \"first\"})@slot{{ \"<first>\" }}@end@slot(\"raw\")x@end@end@component(\"components/card\", {title: " + quoted + "})@slot{{ " + quoted + " }}@end@slot(\"raw\"){{ " + quoted + ".raw() }}@end@end",
 		}
 		tpl, err := loadTree(c, "c10tree", files, ".tw")
 		if err != nil {
@@ -413,6 +417,28 @@ func runTreeLiteral(c *core.Ctx, l string) {
 				judgeSegment(c, "insert-argument-above-use", files["before.tw"], "[["+parts[0]+"]]", l, false)
 				judgeSegment(c, "insert-block-above-use", files["before.tw"], "[["+parts[1]+"]]", l, false)
 				judgeSegment(c, "insert-argument-raw-below-use", files["before.tw"], "[["+parts[2]+"]]", l, true)
+			}
+		}
+		if out, ok := render("across"); ok {
+			parts := strings.Split(strings.TrimSuffix(strings.TrimPrefix(out, "L<"), ">"), "|")
+			if len(parts) != 3 || !strings.HasPrefix(out, "L<") {
+				c.Violation("escape:tree:shape", fmt.Sprintf("unexpected page output %q", out), map[string]any{"literal": l, "files": files})
+			} else {
+				judgeSegment(c, "variable-of-an-insert-block", files["across.tw"], "[["+parts[0]+"]]", l, false)
+				judgeSegment(c, "variable-of-an-earlier-insert-block", files["across.tw"], "[["+parts[1]+"]]", l, false)
+				judgeSegment(c, "variable-of-an-earlier-insert-block-raw", files["across.tw"], "[["+parts[2]+"]]", l, true)
+			}
+		}
+		if out, ok := render("twice"); ok {
+			const firstUse = "C<first|&lt;first&gt;|x|first>"
+			parts := strings.Split(strings.TrimSuffix(strings.TrimPrefix(strings.TrimPrefix(out, firstUse), "C<"), ">"), "|")
+			if len(parts) != 4 || !strings.HasPrefix(out, firstUse+"C<") {
+				c.Violation("escape:tree:shape", fmt.Sprintf("unexpected output of two uses %q", out), map[string]any{"literal": l, "files": files})
+			} else {
+				judgeSegment(c, "second-use:component-argument", files["twice.tw"], "[["+parts[0]+"]]", l, false)
+				judgeSegment(c, "second-use:slot-body", files["twice.tw"], "[["+parts[1]+"]]", l, false)
+				judgeSegment(c, "second-use:slot-body-raw", files["twice.tw"], "[["+parts[2]+"]]", l, true)
+				judgeSegment(c, "second-use:component-argument-raw", files["twice.tw"], "[["+parts[3]+"]]", l, true)
 			}
 		}
 		if out, ok := render("pair"); ok {
